@@ -10,6 +10,7 @@ package main
 //      response must be the model's response for its own request.
 
 import (
+	"github.com/chihaya/chihaya/storage/memory"
 	"github.com/chihaya/chihaya/storage/redis"
 	"context"
 	"encoding/binary"
@@ -462,6 +463,7 @@ func runC04(c *Ctx) {
 	}
 	for i := 0; i < c.N/3000+2; i++ {
 		redisGcStorm(c, r, i)
+		gcStorm(c, r, i, "memory")
 	}
 	for _, pre := range []string{"E", "-", "E,S,E"} {
 		udpOverlap(c, pre, 12)
@@ -713,8 +715,11 @@ func redisSchedRound(c *Ctx, r *Rng, round int) {
 // first operation is an announce, after which no pass may remove it), the abandoned old peers are gone, the counters
 // are the recount and, after one more pass at rest, exactly the non-empty swarms are registered. The model gets the
 // workers' programs one after the other, then one pass.
-func redisGcStorm(c *Ctx, r *Rng, round int) {
-	storeOp(c, "st.reset", map[string]string{"n": "1", "kind": "redis", "instances": "3"})
+func redisGcStorm(c *Ctx, r *Rng, round int) { gcStorm(c, r, round, "redis") }
+
+// gcStorm: the same for either store (memory: one store, the two collectors are two goroutines running passes on it)
+func gcStorm(c *Ctx, r *Rng, round int, kind string) {
+	storeOp(c, "st.reset", map[string]string{"n": strconv.Itoa(1 + r.Intn(2)), "kind": kind, "instances": "3"})
 	t0 := int64(1700000000e9) + int64(round)*1e9
 	storeOp(c, "st.clock", map[string]string{"t": strconv.FormatInt(t0-100e9, 10)})
 	const workers, perWorker, rounds = 4, 6, 10
@@ -801,7 +806,14 @@ func redisGcStorm(c *Ctx, r *Rng, round int) {
 				}
 			}()
 			for atomic.LoadInt32(&done) == 0 {
-				if err := redis.VerifCollectGarbage(rig.all[1+g], cutoff); err != nil {
+				var err error
+				if kind == "redis" {
+					err = redis.VerifCollectGarbage(rig.all[1+g], cutoff)
+				} else {
+					err = memory.VerifCollectGarbage(rig.ps, cutoff)
+					runtime.Gosched()
+				}
+				if err != nil {
 					gcErr[g] = "err"
 				}
 			}
@@ -821,5 +833,5 @@ func redisGcStorm(c *Ctx, r *Rng, round int) {
 	storeOp(c, "st.gc", map[string]string{"cutoff": strconv.FormatInt(cutoff, 10), "inst": "0"})
 	storeOp(c, "st.dump", map[string]string{})
 	storeOp(c, "st.totals", map[string]string{"inst": "0"})
-	c.Kind("redis-gc-storm")
+	c.Kind(kind + "-gc-storm")
 }
